@@ -86,3 +86,46 @@ Definition same_rows (S : list nat) (a : list (list K)) (r1 r2 : nat) : Prop :=
   In r1 S /\ In r2 S /\ r1 <> r2 /\ forall k, In k S -> mget N a r1 k = mget N a r2 k.
 
 End Spec.
+
+(* ------------------------------------------------------------------ round 2: the full contract of gaussJordan.Run *)
+Section Spec2.
+Variable K : fld.
+Notation N := (NumK K).
+
+(* [gj_spec] plus what the code does with everything [gj_spec] leaves open:
+   - the result is well-shaped;
+   - QUIRK: the entries (r, k) of a and x with r selected and k NOT selected are never
+     read or written by the elimination, but the final row gather "row r := row p[r]" (p the
+     accumulated pivot permutation, which fixes the unselected rows) moves them along with
+     their rows: a'[r,k] = a0[p[r],k], x'[r,k] = x0[p[r],k];
+   - when x0 is the identity on the selection, x' is also a LEFT inverse: x'_S * A_S = I_S. *)
+Definition gj_spec_full (n : nat) (msk : list bool) (p : list nat) (s0 s' : st (A:=K)) : Prop :=
+  let S := idxs msk 0 n in
+  wf_st K n s' /\
+  gj_spec K n msk s0 s' /\
+  (forall r k, In r S -> k < n -> sel msk k = false ->
+      mget N (sa s') r k = mget N (sa s0) (pget p r) k /\ mget N (sx s') r k = mget N (sx s0) (pget p r) k) /\
+  ((forall i j, In i S -> In j S -> mget N (sx s0) i j = delta K i j) ->
+     forall i j, In i S -> In j S -> mulS K S (sx s') (sa s0) i j = delta K i j).
+
+(* upper triangular / non-zero diagonal restricted to the selection *)
+Definition upper_tri_S (S : list nat) (a : list (list K)) : Prop :=
+  forall r c, In r S -> In c S -> c < r -> mget N a r c = f0 K.
+Definition diag_nonzero_S (S : list nat) (a : list (list K)) : Prop :=
+  forall c, In c S -> mget N a c c <> f0 K.
+
+(* X is the inverse of the selected block of m (both sides), the identity elsewhere:
+   the contract of matrixInverse.Run(m, Submatrix{msk}) *)
+Definition inv_spec (n : nat) (msk : list bool) (m X : list (list K)) : Prop :=
+  let S := idxs msk 0 n in
+  wf_mat K n X /\
+  (forall i j, In i S -> In j S -> mulS K S m X i j = delta K i j) /\
+  (forall i j, In i S -> In j S -> mulS K S X m i j = delta K i j) /\
+  (forall i, i < n -> sel msk i = false -> row X i = row (ident N n) i) /\
+  (forall r k, In r S -> k < n -> sel msk k = false -> mget N X r k = f0 K).
+
+(* the mask selects exactly a leading block 0..q-1 *)
+Definition prefix_mask (n q : nat) (msk : list bool) : Prop :=
+  q <= n /\ forall k, k < n -> sel msk k = (k <? q).
+
+End Spec2.
